@@ -11,32 +11,32 @@ def c09(tier):
         runs.append(H("c09_alloc", cfg, cases, topo, params=params, timeout_per_case=90, timeout_base=180))
 
     # serial histories (operations assigned to random pool threads) - ASan + asserts
-    add("asan", 70 if q else 500, None, mode="serial")
-    add("asan", 40 if q else 300, "4,4,4,4", mode="serial")
+    add("asan", 120 if q else 600, None, mode="serial")
+    add("asan", 60 if q else 400, "4,4,4,4", mode="serial")
     if not q:
         add("asan", 200, "3,5", mode="serial")
         add("asan", 150, "smt:2x2x2", mode="serial")
     # concurrent storms - plain (speed = more interleavings), a few under ASan
-    add("plain", 45 if q else 500, None, mode="storm")
-    add("plain", 30 if q else 300, "3,5", mode="storm")
-    add("asan", 12 if q else 120, "4,4,4,4", mode="storm")
+    add("plain", 80 if q else 600, None, mode="storm")
+    add("plain", 50 if q else 400, "3,5", mode="storm")
+    add("asan", 20 if q else 150, "4,4,4,4", mode="storm")
     if not q:
         add("plain", 300, "4,4,4,4", mode="storm")
         add("plain", 200, "12,12,8", mode="storm")
         add("plain", 250, None, mode="mix")
     # per-thread / per-socket storage offsets: processes of their own (the 2 MB per-thread region is a
     # process-wide resource; the harness' availability model needs to be its only user)
-    add("asan", 40 if q else 300, "4,4,4,4", mode="serial", comp=PTS)
-    add("asan", 25 if q else 200, None, mode="serial", comp=PTS)
-    add("plain", 25 if q else 250, "3,5", mode="storm", comp=PTS)
-    add("plain", 15 if q else 150, None, mode="storm", comp=PTS)
+    add("asan", 60 if q else 400, "4,4,4,4", mode="serial", comp=PTS)
+    add("asan", 40 if q else 300, None, mode="serial", comp=PTS)
+    add("plain", 40 if q else 300, "3,5", mode="storm", comp=PTS)
+    add("plain", 25 if q else 200, None, mode="storm", comp=PTS, precond=1)
     if not q:
         add("asan", 200, "3,5", mode="serial", comp=PTS)
         add("plain", 300, "smt:2x2x2", mode="serial", comp=PTS)
-        add("asan", 60, "4,4,4,4", mode="storm", comp=PTS)
+        add("asan", 60, "4,4,4,4", mode="storm", comp=PTS, precond=1)
     # PerSocketStorage histories that contain moves (isolated: the moved-from object releases the live
     # successor's offset, which would blur every later per-socket case of the same process)
-    add("asan", 12 if q else 80, "3,5", mode="serial", comp="PerSocketStorage.move")
+    add("asan", 15 if q else 100, "3,5", mode="serial", comp="PerSocketStorage.move")
     return runs
 
 
